@@ -97,7 +97,15 @@ fn run(args: &[u64]) -> Vec<u64> {
         .errors()
         .iter()
         .filter(|e| matches!(e.1, ErrorMessage::ParseErrorMessage(_)))
-        .all(|e| lo <= e.0.start && e.0.end <= hi);
+        .all(|e| {
+            if e.0.is_empty() && i + 1 < n {
+                // an empty token range k..k stands for the position directly behind token k (AnalyzedSource::errors):
+                // behind the first token of the next declaration is no longer inside the damaged one
+                lo <= e.0.start && e.0.start < hi
+            } else {
+                lo <= e.0.start && e.0.end <= hi
+            }
+        });
     let mut table_ok = true;
     for (j, gd) in d1.iter().enumerate() {
         if j == i {
